@@ -229,7 +229,7 @@ def build(read):
         "                        proof { assert(props.0.0@ == m0.insert(k, slot_after(m0[k], rhs0, op0)->0)); } // [C12:index_assignment_to_an_existing_key_replaces_exactly_that_property]\n",
         "bind_next: object index write effect (existing key)")
     f1 = extract.rewrite_regex_once(
-        f1, r"(OpOnUndefinedIndex\{name\}\);\s*\}\s*lock_deref!\(props\)\.insert\(name, rhs\);\n)",
+        f1, r"(OpOnUndefinedIndex\{name\}\);\s*\}\s*lock_deref!\(props\)\.insert\([^;]*\);\n)",
         r"\1                    proof { assert(!m0.contains_key(k) && props.0.0@ == m0.insert(k, rhs0)); } // [C12:index_assignment_to_an_absent_key_adds_exactly_that_property]\n",
         "bind_next: object index write effect (new key)")
     f1 = extract.rewrite_regex_once(
@@ -241,7 +241,7 @@ def build(read):
         "                        proof { assert(props.0.0@ == m0.insert(name@, slot_after(m0[name@], rhs0, op0)->0)); } // [C12:property_assignment_to_an_existing_key_replaces_exactly_that_property_like_index_assignment]\n",
         "bind_next: object property write effect (existing key)")
     f1 = extract.rewrite_regex_once(
-        f1, r"(OpOnUndefinedProp\{name\}\);\s*\}\s*lock_deref!\(props\)\.insert\(name, rhs\);\n)",
+        f1, r"(OpOnUndefinedProp\{name\}\);\s*\}\s*lock_deref!\(props\)\.insert\([^;]*\);\n)",
         r"\1                    proof { assert(!m0.contains_key(name@) && props.0.0@ == m0.insert(name@, rhs0)); } // [C12:property_assignment_to_an_absent_key_adds_exactly_that_property_like_index_assignment]\n",
         "bind_next: object property write effect (new key)")
     b.edits.append("annotation: ghost snapshots of the locked cell and 6 labelled assertions stating the operation performed on it")
